@@ -48,6 +48,7 @@ ALLS = [("all-x", "__all__ = ['x']"), ("all-y", "__all__ = ['y']"), ("all-x-_p",
 IMPORTS_FROM_B = [
     ("from-b-x", "from .b import x"), ("from-b-x-as-y", "from .b import x as y"), ("from-b-_p", "from .b import _p"), ("abs-from-b-y", "from pkg.b import y"),
     ("wild-rel-b", "from .b import *"), ("wild-abs-b", "from pkg.b import *"), ("import-pkg-b", "import pkg.b"), ("from-dot-b", "from . import b"),
+    ("tc-wild-b", "from typing import TYPE_CHECKING\nif TYPE_CHECKING:\n    from .b import *"),  # nothing is bound at runtime
     ("all+b", "__all__ = ['x'] + b.__all__"), ("all+=b", "__all__ += b.__all__"), ("all*b", "__all__ = [*b.__all__, 'y']"),
 ]
 A_MENU = LOCAL + ALLS + IMPORTS_FROM_B
@@ -203,7 +204,7 @@ def cpython_view(root, modnames=MODS_FLAT):
             for name, mod in mods.items():
                 ns = {}
                 for k, v in vars(mod).items():
-                    if (k.startswith("__") and k.endswith("__")) or k == "V":
+                    if (k.startswith("__") and k.endswith("__")) or k in ("V", "TYPE_CHECKING"):
                         continue
                     ns[k] = _origin(v)
                 out[name] = (ns, list(mod.__all__) if hasattr(mod, "__all__") else None)
@@ -226,8 +227,10 @@ def griffe_view(griffe, root, modnames=MODS_FLAT):
         mod = loader.modules_collection[name]
         ns = {}
         for k, m in mod.members.items():
-            if (k.startswith("__") and k.endswith("__")) or k == "V":
+            if (k.startswith("__") and k.endswith("__")) or k in ("V", "TYPE_CHECKING"):
                 continue
+            if m.runtime is False:
+                continue  # only there for type checkers: not among the names CPython binds
             if m.is_alias:
                 try:
                     ft = m.final_target
